@@ -492,7 +492,7 @@ CLAIMS["C07"]["text"] += (
     "and counter; same scripts, handed wakers and event trace), drop_tie (the stored errors are released exactly once), "
     "drop_failed_tie (after the aggregate was returned nothing but the children is released). Hypotheses: slots Ready exactly "
     "where an error is stored, the counter counts them, children answer like futures without panicking, not completed. "
-    "The tuple variant remains tied differentially; the Vec (MaybeDone) variant is tied statically as well, see below.")
+    "The tuple and the Vec (MaybeDone) variants are tied statically as well, see below.")
 CLAIMS["C19"]["text"] += (
     " Static tie (FcProps/KTieWait.lean): WaitUntil::poll (src/future/wait_until.rs: the loop over the State enum with ready!) and "
     "WaitUntil::poll_next (src/stream/wait_until.rs), translated from the current source on every run (lean/FcGen/KSrcWait.lean), are "
@@ -529,6 +529,8 @@ CLAIMS["C06"]["text"] += _tup("race (src/future/race/tuple.rs, Race1..Race12, al
     "the translated Race::poll (children held as fields of the struct and read as one array; the dispatch `if i == Indexes::F as usize { match <poll F> { Ready(o) => return, _ => continue } }` over the local #[repr(usize)] enum folded into one indexed body) is proved to refine Eng.poll of the policy race")
 CLAIMS["C10"]["text"] += _tup("chain (src/stream/chain/tuple.rs, Chain1..Chain12, also StreamExt::chain)", "FcProps/KTieChainT.lean: TieChainT.poll_tie, poll_tie_strong, new_wf",
     "the translated Chain::poll_next (a Rust loop with fuel N + index + 1; the dispatch `match *this.index { <mod>::F => .. _ => unreachable!() }` folded behind assert!(index < N); the arm `v @ (Pending | Ready(Some(_))) => return v` written as the two arms it stands for) is proved to refine Eng.poll of the policy chain, also")
+CLAIMS["C07"]["text"] += _tup("race_ok (src/future/race_ok/tuple/mod.rs, RaceOk1..RaceOk12)", "FcProps/KTieRaceOkT.lean: TieRaceOkT.poll_tie, poll_tie_strong, drop_tie, drop_failed_tie, new_wf",
+    "the translated RaceOk::poll (rotating Indexer order, done flag, the arity constant RaceOk<k> = 0+1+..+1 checked and read as N, completed also counts the winner) and PinnedDrop are proved to refine Eng.poll / Eng.drop of the policy raceOk true false")
 CLAIMS["C07"]["text"] += (
     " Static tie of the Vec variant (FcProps/KTieRaceOkV.lean): RaceOk::poll and the constructor of Vec<Fut>::race_ok() "
     "(src/future/race_ok/vec/mod.rs) together with the helper enum MaybeDone (src/utils/poll_state/maybe_done.rs: new, poll, "
